@@ -6,7 +6,8 @@
 From NV Require Import Model.Base Model.Diag Model.Lexer Model.Errors Model.Cli Spec.CConst Spec.Conforming
   Gen.ErrOrder Gen.MainExit Gen.Emitters Gen.HeaderRe Gen.HeaderSM Model.Header Model.GuardBase Gen.Guard Model.Guard
   Proofs.EmittersProofs Proofs.ConformingProofs Proofs.ConformingChecks Proofs.ConformingCounters Proofs.ConformingSpacing
-  Proofs.ConformingControl Proofs.ConformingTraced.
+  Proofs.ConformingControl Proofs.ConformingTraced Proofs.ConformingNames.
+From NV Require Import Model.NameBase Gen.NameChecks Model.ScopeBase Gen.ScopeOps.
 From NV Require Import Model.RuleChecks Gen.RuleChecks Gen.MoreChecks Proofs.RuleChecksProofs Proofs.RuleChecksProofs2
   Proofs.MoreChecksProofs.
 From NV Require Props.C04 Props.C11 Props.C13 Props.C14.
@@ -28,11 +29,14 @@ Qed.
 (* ------------------------------------------------------------------ the translated checks: silent on conforming statements *)
 (* the codes of the checks proved silent as a whole that ONE file only can emit (Gen/Emitters.v).  LINE_TOO_LONG is also
    emitted by check_comment_line_len.py, TOO_MANY_INSTR by check_assignation.py and SPACE_EMPTY_LINE by check_spacing.py:
-   for those three codes only the named check is proved silent, not the code *)
+   FORBIDDEN_CHAR_NAME fits the f-string pattern FORBIDDEN_<type> of check_utype_declaration.py and TOO_MANY_LINES is shared by
+   check_brace.py and check_line_count.py: for those five codes only the named check is proved silent, not the code *)
 Definition silent_check_codes : list (string * string) :=
   [("norminette/rules/check_ternary.py", "TERNARY_FBIDDEN");
    ("norminette/rules/check_label.py", "GOTO_FBIDDEN"); ("norminette/rules/check_label.py", "LABEL_FBIDDEN");
    ("norminette/rules/check_functions_count.py", "TOO_MANY_FUNCS");
+   ("norminette/rules/check_identifier_name.py", "WRONG_SCOPE_FCT");
+   ("norminette/rules/check_comment.py", "WRONG_SCOPE_COMMENT"); ("norminette/rules/check_comment.py", "COMMENT_ON_INSTR");
    ("norminette/rules/check_empty_line.py", "EMPTY_LINE_FILE_START"); ("norminette/rules/check_empty_line.py", "NL_AFTER_VAR_DECL");
    ("norminette/rules/check_empty_line.py", "NL_AFTER_PREPROC"); ("norminette/rules/check_empty_line.py", "CONSECUTIVE_NEWLINES");
    ("norminette/rules/check_empty_line.py", "EMPTY_LINE_FUNCTION"); ("norminette/rules/check_empty_line.py", "EMPTY_LINE_EOF")].
@@ -61,7 +65,7 @@ Proof.
 Qed.
 
 Definition C01_checks_silent_statement : Prop :=
-  (* ten codes of checks proved silent as a whole can only come from those checks *)
+  (* thirteen codes of checks proved silent as a whole can only come from those checks *)
   forallb (fun fc => only_in (fst fc) (snd fc)) silent_check_codes = true /\
   (* K: every statement (remaining tokens `toks`) of a conforming text - any number of lines - is free of the forbidden kinds *)
   (forall ls, chain ls = true -> kinds_ok ls = true ->
@@ -113,6 +117,17 @@ Definition C01_checks_silent_statement : Prop :=
      check_control_statement toks scope v = Ok ([], v)) /\
   (* the same with scope name / indentation derived from the scope-trace model (Proofs/ConformingTraced.v) *)
   traced_silent_statement /\
+  (* CheckIdentifierName (whole check): function names and recorded variable names over [a-z0-9_], functions at global scope *)
+  (forall toks last glob udt fname fpos vars,
+     (str_eqb last ident_func_rule = true -> (glob || udt) = true /\ exists f, fname = Some f /\ legal_name f = true) ->
+     forallb (fun x => legal_name (fst (fst x))) vars = true -> check_identifier_name toks last glob udt fname fpos vars = Ok []) /\
+  (* CheckComment (whole check): no comment token in the remaining tokens; or - outside functions - every comment of the line first
+     after the blanks or followed by blanks / comments only *)
+  (forall toks hist cls, forallb (fun t => negb (str_in (t_type t) comment_types)) toks = true -> check_comment toks hist cls = []) /\
+  (forall toks hist cls, comment_inside_function hist cls = false ->
+     comment_line_ok true (collect_line toks (skip_ws toks 0)) = true -> check_comment toks hist cls = []) /\
+  (* CheckLineCount (whole check): it can never report - its guard compares the parent rule with a name no primary has *)
+  (forall glob hist lines nl, forallb is_primary hist = true -> snd (line_count_run glob (parent_rule hist) lines nl) = []) /\
   (* CheckUtypeDeclaration (translated part), in a header *)
   (forall toks scope ftype v, str_eqb ftype (s ".c") = false -> str_in (v_scope_name v) [s "GlobalScope"; s "UserDefinedType"] = true ->
      check_utype_forbidden toks scope ftype v = Ok ([], v)).
@@ -125,7 +140,9 @@ Proof.
   split; [exact empty_line_silent_on_empty_line|]. split; [exact counters_silent|].
   split; [exact line_indent_skipped|]. split; [exact line_indent_silent|]. split; [exact line_indent_rbrace_silent|].
   split; [exact line_indent_lbrace_silent|]. split; [exact expression_statement_silent|]. split; [exact spacing_silent|].
-  split; [exact control_statement_silent|]. split; [exact traced_silent|]. exact utype_silent_in_header.
+  split; [exact control_statement_silent|]. split; [exact traced_silent|].
+  split; [exact identifier_name_silent|]. split; [exact comment_silent_no_comments|]. split; [exact comment_silent|].
+  split; [exact line_count_silent|]. exact utype_silent_in_header.
 Qed.
 
 Definition C01_partial_K_statement : Prop :=
